@@ -660,6 +660,7 @@ type c08TraceRes struct {
 	panicked string
 	noOracle bool // some nl-read happened at an unaligned point: no ghost available
 	hasErr   bool
+	fin      string // f:<err>:<open>:<lit>: the parser state when StmtsSeq has finished
 }
 
 func c08Trace(o c08PO, src string, maxCalls int, oracle bool) (t c08TraceRes) {
@@ -714,6 +715,8 @@ func c08Trace(o c08PO, src string, maxCalls int, oracle bool) (t c08TraceRes) {
 			t.evs = append(t.evs, fmt.Sprintf("s:%s:%s:%s:%d:%d:%d", ids, b(err != nil), b(pr.TokNewl), pr.Line, pr.OpenNodes, pr.LitLen))
 		}
 	})
+	pr := syntax.VerifC08ProbeParser(p)
+	t.fin = fmt.Sprintf("f:%s:%d:%d", b(pr.HasErr), pr.OpenNodes, pr.LitLen)
 	return t
 }
 
@@ -1087,7 +1090,7 @@ func c08SkippedFields(which string) map[string]bool {
 	if which == "P" {
 		return map[string]bool{"src": true, "f": true, "spaced": true, "pos": true, "lastBquoteEsc": true, "rxOpenParens": true, "rxFirstPart": true, "readBuf": true, "litBuf": true}
 	}
-	return map[string]bool{"w": true, "tabWriter": true, "cols": true, "wroteSemi": true, "tabsPrinter": true}
+	return map[string]bool{"w": true, "tabWriter": true, "cols": true, "tabsPrinter": true}
 }
 
 func c08Snap(which string, names []string, fields map[string]string) string {
@@ -1119,6 +1122,7 @@ func (o c08PO) cfg() []string {
 type c08Gen struct {
 	r     *Rand
 	seeds []string
+	dash  bool // this case targets `<<-` here-documents (nested printer)
 }
 
 func (g *c08Gen) po(fancy bool) c08PO {
@@ -1238,6 +1242,49 @@ func (g *c08Gen) hist() []c08Hist {
 	return hs
 }
 
+// c08DashBodies: bodies for tab-indented `<<-` here-documents whose printing goes through the
+// nested printer (Printer.tabsPrinter): multi-line command substitutions in several shapes (closed
+// on the last command's line, closed on a line of their own, opening one or two indentation levels
+// on one line), single-line ones, plain text, nesting.
+var c08DashBodies = []string{
+	"$(foo |\n\t\tbar)", "$(a && {\n\t\tb\n\t})", "$(if a; then\n\t\tb\n\tfi)", "$(a &&\n\t\tb)", "$(a ||\n\t\tb | c)",
+	"$(\n\t\ta\n\t)", "$(a\n\tb)", "$(a | b)", "plain $body", "x $(y) z", "$(x $(y |\n\t\tz))", "$(while a; do\n\t\tb\n\tdone)",
+	"$(case x in\n\ta) b ;;\n\tesac)", "$( (a\n\tb) )", "$(f() {\n\t\ta\n\t}; f)", "usage: $(basename $0 &&\n\t\t\techo x)", "${a:-$(b |\n\t\tc)}",
+	"`a |\n\t\tb`", "$(a && {\n\t\tb && {\n\t\t\tc\n\t\t}\n\t})", "$(for i in 1 2; do\n\t\techo $i\n\tdone) tail", "$(a |\n\t\tb) and $(c &&\n\t\td)",
+}
+
+// dashHdoc generates a program with one to three `<<-` here-documents (sometimes a plain `<<` one)
+// whose bodies are drawn from c08DashBodies, at top level, inside a function, an if or a block.
+func (g *c08Gen) dashHdoc() string {
+	r := g.r
+	var sb strings.Builder
+	for i, n := 0, 1+r.Intn(3); i < n; i++ {
+		op := "<<-"
+		if r.Chance(10) {
+			op = "<<"
+		}
+		var body strings.Builder
+		for j, m := 0, 1+r.Intn(2); j < m; j++ {
+			body.WriteString("\t" + r.Pick(c08DashBodies) + "\n")
+		}
+		hd := "cat " + op + "EOF\n" + body.String() + "EOF\n"
+		switch r.Intn(6) {
+		case 0:
+			sb.WriteString("f() {\n" + hd + "}\n")
+		case 1:
+			sb.WriteString("if a; then\n" + hd + "fi\n")
+		case 2:
+			sb.WriteString("{\n" + hd + "}\n")
+		default:
+			sb.WriteString(hd)
+		}
+		if r.Chance(30) {
+			sb.WriteString(r.Pick([]string{"echo unrelated\n", "foo | bar\n", "a &&\n\tb\n"}))
+		}
+	}
+	return sb.String()
+}
+
 func (g *c08Gen) qhist() []c08QHist {
 	var hs []c08QHist
 	for i, n := 0, 1+g.r.Intn(5); i < n; i++ {
@@ -1246,12 +1293,22 @@ func (g *c08Gen) qhist() []c08QHist {
 			l = syntax.LangBash
 		}
 		src, ok := g.parseable(c08PO{lang: l, keep: true})
+		dash := g.dash && g.r.Chance(60)
+		if dash {
+			src = g.dashHdoc()
+			_, err, pn := parseIn(src, l, syntax.KeepComments(true))
+			ok = err == nil && pn == ""
+		}
 		if !ok {
 			continue
 		}
 		f, _, _ := parseIn(src, l, syntax.KeepComments(true))
 		ns := c08Printable(f)
 		h := c08QHist{q: g.qo(), lang: l, src: src, failAt: -1}
+		if dash && g.r.Chance(70) {
+			// the nested printer is only used with tab indentation and without Minify
+			h.q.indent, h.q.minify = 0, false
+		}
 		if g.r.Chance(50) {
 			h.sel = g.r.Intn(len(ns))
 		}
@@ -1330,9 +1387,13 @@ func c08(c *Ctx) {
 			out.H("trace-too-long", 1)
 			return
 		}
-		out.Op("glue "+stop+" "+evs, line)
+		out.Op("glue "+stop+" "+tr.fin+" "+evs, line)
+		out.Op("a3 "+stop+" "+evs, "A3=1")
 		if real.panicked != "" {
 			out.H("glue-panic(yield after stop)", 1)
+			if stopAt >= 0 {
+				out.Fail(fmt.Sprintf("interstop %s %d %s", o.key(), stopAt, hx(src)), "InteractiveSeq calls the consumer again after it returned false: "+real.panicked)
+			}
 		}
 		if stopAt >= 0 {
 			return
@@ -1525,22 +1586,10 @@ func c08(c *Ctx) {
 				out.H("inter-no-parseable-input", 1)
 				return
 			}
-			// Exclusion (recorded finding C08-interactive-unterminated-last-line): InteractiveSeq
-			// never hands over the statements of a last line that is not ended by a newline
-			// token: no final newline, or a final newline that is escaped by a backslash.  The
-			// generator terminates the last line (re-checking that the program still parses) and
-			// skips programs whose final newline is preceded by an odd number of backslashes.
-			if !strings.HasSuffix(src, "\n") {
-				src += "\n"
-				if _, err, pn := parseIn(src, o.lang, syntax.KeepComments(o.keep)); err != nil || pn != "" {
-					out.H("inter-no-parseable-input", 1)
-					return
-				}
-				out.H("inter-newline-appended", 1)
-			}
+			// (the exclusions for the former finding C08-interactive-unterminated-last-line are gone:
+			// InteractiveSeq now hands over an unterminated last line at EOF)
 			if !c08LastLineTerminated(src) {
-				out.H("inter-excluded(last newline escaped)", 1)
-				return
+				out.H("inter-last-line-unterminated", 1)
 			}
 			what, st := c08CheckInter(o, src, r.Chance(15))
 			for k, v := range st {
@@ -1554,11 +1603,8 @@ func c08(c *Ctx) {
 			}
 			tie(out, r, o, src, -1, true)
 			if r.Chance(30) {
-				// The consumer stops at a random callback.
-				// Exclusion (recorded finding C08-interactive-yield-after-stop): stopping at a
-				// callback made while a statement is unfinished makes InteractiveSeq call the
-				// consumer again (Go runtime panic).  The tie stream still replays those (the
-				// model predicts the panic); the search leg does not judge them.
+				// The consumer stops at a random callback: it must never be called again (a second
+				// call is the Go runtime panic; former finding C08-interactive-yield-after-stop).
 				res := c08Interactive(o.fresh(), src, -1)
 				if len(res.cbs) > 0 {
 					tie(out, r, o, src, r.Intn(len(res.cbs)), false)
@@ -1615,6 +1661,18 @@ func c08(c *Ctx) {
 				l = syntax.LangBash
 			}
 			src, ok := g.parseable(c08PO{lang: l, keep: true})
+			// targeted: `<<-` here-documents with multi-line command substitutions, in the history
+			// and in the input under test, tab indentation, no Minify (state of the nested printer)
+			g.dash = r.Chance(35)
+			if g.dash {
+				src = g.dashHdoc()
+				_, err, pn := parseIn(src, l, syntax.KeepComments(true))
+				ok = err == nil && pn == ""
+				if r.Chance(80) {
+					q.indent, q.minify = 0, false
+				}
+				out.H("qreuse-dash-heredoc-targeted", 1)
+			}
 			if !ok {
 				out.H("qreuse-no-parseable-input", 1)
 				return
@@ -1622,16 +1680,13 @@ func c08(c *Ctx) {
 			f, _, _ := parseIn(src, l, syntax.KeepComments(true))
 			ns := c08Printable(f)
 			sel := 0
-			if r.Chance(60) {
+			if r.Chance(60) && !(g.dash && r.Chance(70)) {
 				sel = r.Intn(len(ns))
 			}
 			hist := g.qhist()
-			// Exclusion (recorded finding C08-printer-stale-wrotesemi): Printer.reset() does not
-			// clear wroteSemi.  When the history leaves it true and the node under test is not a
-			// *File/*Stmt (whose printing starts with stmt(), which clears it), one more harmless
-			// print of a simple statement is added to the history, which clears the flag; every
-			// other field is still compared.
-			what, normalised, panics := c08CheckQReuse(q, ns[sel], hist, true)
+			// (the exclusion for the former finding C08-printer-stale-wrotesemi is gone: reset() now
+			// clears wroteSemi, so no history is normalised any more)
+			what, normalised, panics := c08CheckQReuse(q, ns[sel], hist, false)
 			if normalised {
 				out.H("qreuse-wroteSemi-normalised", 1)
 			}
